@@ -117,11 +117,9 @@ def updateE (d : CS υ) (s : Svc) : Except PyExc (CS υ) :=
     | .ok reg' => .ok { d with reg := reg' }
 
 /-- `MulticastOutgoingQueue.async_remove_answers(records)`, on record ids: struck as answers and as additionals of every pending group -/
-def purgeDict (W : List Nat) (a : Reply.Dict) : Reply.Dict :=
-  a.filterMap (fun e => if W.contains e.1 then none else some (e.1, e.2.filter (fun x => !(W.contains x))))
+def purgeDict (W : List Nat) (a : Reply.Dict) : Reply.Dict := a.withdraw W   -- the reply model's own (`Model/Reply.lean`)
 
-def purgeQueue (W : List Nat) (q : Reply.Queue) : Reply.Queue :=
-  { q with groups := q.groups.map (fun g => { g with answers := purgeDict W g.answers }) }
+def purgeQueue (W : List Nat) (q : Reply.Queue) : Reply.Queue := q.removeRecords W
 
 /-- the records `async_unregister_service` withdraws from the queues -/
 def withdrawn (s : Svc) (broadcastAddresses : Bool) : List Rec :=
